@@ -415,7 +415,7 @@ def r4_recording_robust(ctx, sym):
     # (`raise ValueError()`, bare assert, sys.exit()), one character, ordinary, and a failing __str__
     from .. import symexec
     from ..fdeval import Obj, Raised as _Raised
-    for text in ('', 'x', 'division by zero', None):
+    for text in ('', 'x', 'division by zero', None, SystemExit, KeyboardInterrupt):
         rec = symexec.Recorder()
         exc = Obj('student-exception', exc_kind='ValueError')
 
@@ -423,6 +423,9 @@ def r4_recording_robust(ctx, sym):
             if o is exc:
                 if text is None:
                     raise _Raised('ValueError', 'broken __str__')
+                if isinstance(text, type):
+                    # a __str__ that ends in sys.exit() / is interrupted: not an Exception subclass
+                    raise _Raised(text.__name__, 'raised by the exception\'s own __str__')
                 return text
             return str(o) if isinstance(o, (str, int, float, bool, type(None))) else 'str(%r)' % (o,)
         fmt = Obj('format')
@@ -442,15 +445,16 @@ def r4_recording_robust(ctx, sym):
             'super': lambda *a: sup}, extra={'EXCEPTION_FF_MAP': {}, 'MAIN_REPORT': report})
         _, raised = symexec.run(fd, rt_init, [exc, ['context'], tb, 3], {'report': report}, bound_self=me,
                                 what='runtime_error.__init__')
-        tag = '[str(exception)=%s]' % ('raises' if text is None else repr(text))
+        tag = '[str(exception)=%s]' % ('raises' if text is None else ('raises ' + text.__name__) if isinstance(
+            text, type) else repr(text))
         built = rec.named('super().__init__')
         fields = built[0][2].get('fields') if len(built) == 1 else None
         ok = raised is None and isinstance(fields, dict) and isinstance(fields.get('exception_message'), str)
-        if ok and text:
+        if ok and text and isinstance(text, str):
             ok = fields['exception_message'].lower() == text.lower()
         ctx.check(ok, 'R4', 'runtime_error.__init__:builds' + tag, fmod, rt_init,
                   "for a student exception whose message text is %s the feedback constructor %s" % (
-                      'unavailable (failing __str__)' if text is None else repr(text),
+                      'unavailable (failing __str__)' if text is None or isinstance(text, type) else repr(text),
                       'raises %s (%s)' % (raised.kind, raised.detail) if raised is not None else
                       'does not hand one `exception_message` text (the student\'s, up to case) to Feedback.__init__: %r'
                       % (fields.get('exception_message') if isinstance(fields, dict) else fields,)),
